@@ -10,6 +10,7 @@ import (
 	"github.com/tychoish/fun/adt"
 	"github.com/tychoish/fun/erc"
 	"github.com/tychoish/fun/ers"
+	"github.com/tychoish/fun/internal"
 )
 
 const (
@@ -112,6 +113,7 @@ func (s *Service) Start(ctx context.Context) error {
 		return ErrServiceReturned
 	}
 
+	internal.VerifPoint("srv.Service.Start.checked")
 	if s.isRunning.Swap(true) {
 		return ErrServiceAlreadyStarted
 	}
@@ -181,6 +183,7 @@ func (s *Service) Start(ctx context.Context) error {
 			defer s.cancel()
 			ec.Add(s.Run(ctx))
 		}()
+		internal.VerifPoint("srv.Service.Start.launched")
 	})
 
 	return nil
